@@ -31,6 +31,12 @@ fn c_royalty() -> Box<dyn Contract<Empty>> {
 }
 
 fn raw_exec(app: &mut App, sender: &str, contract: &str, msg: &[u8], funds: &[Coin]) -> bool {
+    // a contract panic (e.g. arithmetic overflow, which aborts the transaction on chain) unwinds through
+    // cw-multi-test; its transactional cache is dropped, the base storage is untouched
+    std::panic::catch_unwind(std::panic::AssertUnwindSafe(|| raw_exec_inner(app, sender, contract, msg, funds))).unwrap_or(false)
+}
+
+fn raw_exec_inner(app: &mut App, sender: &str, contract: &str, msg: &[u8], funds: &[Coin]) -> bool {
     app.execute(
         Addr::unchecked(sender),
         CosmosMsg::Wasm(WasmMsg::Execute { contract_addr: contract.to_string(), msg: Binary(msg.to_vec()), funds: funds.to_vec() }),
@@ -177,6 +183,20 @@ pub fn run(seed: u64, runs: u64) -> i32 {
                     let _ = app.execute(Addr::unchecked(from), CosmosMsg::Wasm(m));
                 }
                 Op::Probe { .. } => {}
+                Op::Mint { to, denom, amount } => {
+                    if exec.stats.tx_ok >= before && exec.sim.chain.0.borrow().bank_get(to, denom) > 0 {
+                        // mirror the credit: cw-multi-test's init_balance replaces the whole balance
+                        let mut cur: Vec<Coin> = app.wrap().query_all_balances(to.clone()).unwrap();
+                        match cur.iter_mut().find(|c| c.denom == *denom) {
+                            Some(c) => c.amount = cosmwasm_std::Uint128::new(exec.sim.chain.0.borrow().bank_get(to, denom)),
+                            None => cur.push(crate::chain::coin(denom, exec.sim.chain.0.borrow().bank_get(to, denom))),
+                        }
+                        let (t, _a) = (to.clone(), *amount);
+                        app.init_modules(|router, _, storage| {
+                            router.bank.init_balance(storage, &Addr::unchecked(t.clone()), cur.clone()).unwrap();
+                        });
+                    }
+                }
             }
         }
         // final state: contract storage of market, registry, tokens; bank balances
